@@ -217,6 +217,69 @@ pub fn details(instruction: &capstone::Instr) -> Result<capstone::cs_mips, Error
     }
 }
 
+/// The scalar that holds the condition of a branch over its delay slot.
+fn delay_slot_condition() -> Scalar {
+    scalar("branching_condition", 1)
+}
+
+/// The part of a jump/branch-and-link that takes effect before its delay slot:
+/// the link register is written, and the branch condition is evaluated, before
+/// the instruction in the delay slot executes.
+pub fn before_delay_slot(instruction: &capstone::Instr) -> Result<ControlFlowGraph, Error> {
+    let detail = details(instruction)?;
+    let mut control_flow_graph = ControlFlowGraph::new();
+
+    let block_index = {
+        let block = control_flow_graph.new_block()?;
+
+        if let capstone::InstrIdArch::MIPS(instruction_id) = instruction.id {
+            let link = expr_const(instruction.address + 8, 32);
+            match instruction_id {
+                capstone::mips_insn::MIPS_INS_BAL | capstone::mips_insn::MIPS_INS_JAL => {
+                    block.assign(scalar("$ra", 32), link);
+                }
+                capstone::mips_insn::MIPS_INS_BGEZAL => {
+                    let lhs = get_register(detail.operands[0].reg())?.expression();
+                    let negative = Expr::cmplts(lhs, expr_const(0, 32))?;
+                    block.assign(
+                        delay_slot_condition(),
+                        Expr::cmpeq(negative, expr_const(0, 1))?,
+                    );
+                    block.assign(scalar("$ra", 32), link);
+                }
+                capstone::mips_insn::MIPS_INS_BLTZAL => {
+                    let lhs = get_register(detail.operands[0].reg())?.expression();
+                    block.assign(
+                        delay_slot_condition(),
+                        Expr::cmplts(lhs, expr_const(0, 32))?,
+                    );
+                    block.assign(scalar("$ra", 32), link);
+                }
+                capstone::mips_insn::MIPS_INS_JALR => {
+                    // jalr rs links to $ra, jalr rd, rs links to rd
+                    let rd = if detail.op_count > 1 {
+                        get_register(detail.operands[0].reg())?
+                    } else {
+                        get_register(mips_reg::MIPS_REG_31)?
+                    };
+                    block.assign(rd.scalar(), link);
+                }
+                _ => block.nop(),
+            }
+        } else {
+            block.nop();
+        }
+
+        block.index()
+    };
+
+    control_flow_graph.set_entry(block_index)?;
+    control_flow_graph.set_exit(block_index)?;
+    control_flow_graph.set_address(Some(instruction.address));
+
+    Ok(control_flow_graph)
+}
+
 pub fn add(
     control_flow_graph: &mut ControlFlowGraph,
     instruction: &capstone::Instr,
@@ -483,7 +546,7 @@ pub fn bal(
     let block_index = {
         let block = control_flow_graph.new_block()?;
 
-        block.assign(scalar("$ra", 32), expr_const(instruction.address + 8, 32));
+        // $ra was written before the delay slot
         block.branch(expr_const(operand.imm() as u64, 32));
 
         block.index()
@@ -501,15 +564,10 @@ pub fn bgezal(
 ) -> Result<(), Error> {
     let detail = details(instruction)?;
 
-    let lhs = get_register(detail.operands[0].reg())?.expression();
-    let zero = expr_const(0, 32);
     let target = expr_const(detail.operands[1].imm() as u64, 32);
 
-    let head_index = {
-        let block = control_flow_graph.new_block()?;
-        block.assign(scalar("$ra", 32), expr_const(instruction.address + 8, 32));
-        block.index()
-    };
+    // $ra was written, and the condition evaluated, before the delay slot
+    let head_index = { control_flow_graph.new_block()?.index() };
 
     let true_index = {
         let block = control_flow_graph.new_block()?;
@@ -521,13 +579,10 @@ pub fn bgezal(
 
     let terminating_index = { control_flow_graph.new_block()?.index() };
 
-    let false_condition = Expr::cmplts(lhs, zero)?;
+    let true_condition: Expr = delay_slot_condition().into();
+    let false_condition = Expr::cmpeq(true_condition.clone(), expr_const(0, 1))?;
 
-    control_flow_graph.conditional_edge(
-        head_index,
-        true_index,
-        Expr::cmpeq(false_condition.clone(), expr_const(0, 1))?,
-    )?;
+    control_flow_graph.conditional_edge(head_index, true_index, true_condition)?;
 
     control_flow_graph.conditional_edge(head_index, terminating_index, false_condition)?;
 
@@ -545,15 +600,10 @@ pub fn bltzal(
 ) -> Result<(), Error> {
     let detail = details(instruction)?;
 
-    let lhs = get_register(detail.operands[0].reg())?.expression();
-    let zero = expr_const(0, 32);
     let target = expr_const(detail.operands[1].imm() as u64, 32);
 
-    let head_index = {
-        let block = control_flow_graph.new_block()?;
-        block.assign(scalar("$ra", 32), expr_const(instruction.address + 8, 32));
-        block.index()
-    };
+    // $ra was written, and the condition evaluated, before the delay slot
+    let head_index = { control_flow_graph.new_block()?.index() };
 
     let true_index = {
         let block = control_flow_graph.new_block()?;
@@ -565,7 +615,7 @@ pub fn bltzal(
 
     let terminating_index = { control_flow_graph.new_block()?.index() };
 
-    let true_condition = Expr::cmplts(lhs, zero)?;
+    let true_condition: Expr = delay_slot_condition().into();
     let false_condition = Expr::cmpeq(true_condition.clone(), expr_const(0, 1))?;
 
     control_flow_graph.conditional_edge(head_index, true_index, true_condition)?;
@@ -829,7 +879,7 @@ pub fn jal(
     let block_index = {
         let block = control_flow_graph.new_block()?;
 
-        block.assign(scalar("$ra", 32), expr_const(instruction.address + 8, 32));
+        // $ra was written before the delay slot
         block.branch(expr_const(detail.operands[0].imm() as u64, 32));
 
         block.index()
@@ -847,12 +897,13 @@ pub fn jalr(
 ) -> Result<(), Error> {
     let detail = details(instruction)?;
 
-    let target = get_register(detail.operands[0].reg())?.expression();
+    // the link register was written before the delay slot; in jalr rd, rs the
+    // target is the last operand
+    let target = get_register(detail.operands[detail.op_count as usize - 1].reg())?.expression();
 
     let block_index = {
         let block = control_flow_graph.new_block()?;
 
-        block.assign(scalar("$ra", 32), expr_const(instruction.address + 8, 32));
         block.branch(target);
 
         block.index()
